@@ -496,7 +496,7 @@ TFN = {
 @st.composite
 def tensorfn_cases(draw):
     Ne, nPg, d = draw(fe_dims())
-    fn = draw(st.sampled_from(sorted(TFN)))
+    fn = draw(st.sampled_from(sorted(TFN) + ["Det", "Inv", "Inv"]))  # closed forms for dim 1, 2, 3 + numpy
     rmax = TFN[fn][3]
     rmin = 1 if fn == "Normalize" else 0  # Normalize of a scalar field: no documented per-point meaning
     rank = draw(st.sampled_from([r for r in [2, 2, 2, 2, 1, 1, 0, 3, 4] if rmin <= r <= rmax]))
@@ -887,13 +887,13 @@ def check_field(case, rec):
 
 
 SUBS = [
-    Sub("elementwise", check_elementwise, gen=elementwise_cases, quick=6000, thorough=30000, shards=6),
-    Sub("contract", check_contract, gen=contract_cases, quick=5000, thorough=25000, shards=6),
-    Sub("tensorfn", check_tensorfn, gen=tensorfn_cases, quick=4000, thorough=20000, shards=4),
-    Sub("reduce", check_reduce, gen=reduce_cases, quick=6000, thorough=30000, shards=6),
-    Sub("protocol", check_protocol, gen=protocol_cases, quick=1500, thorough=8000, shards=2),
-    Sub("broadcast", check_broadcast, gen=broadcast_cases, quick=2000, thorough=10000, shards=4),
-    Sub("fieldobj", check_field, gen=field_cases, quick=1200, thorough=6000, shards=2),
+    Sub("elementwise", check_elementwise, gen=elementwise_cases, quick=4000, thorough=30000, shards=6),
+    Sub("contract", check_contract, gen=contract_cases, quick=3500, thorough=25000, shards=6),
+    Sub("tensorfn", check_tensorfn, gen=tensorfn_cases, quick=3000, thorough=20000, shards=4),
+    Sub("reduce", check_reduce, gen=reduce_cases, quick=4000, thorough=30000, shards=6),
+    Sub("protocol", check_protocol, gen=protocol_cases, quick=1000, thorough=8000, shards=2),
+    Sub("broadcast", check_broadcast, gen=broadcast_cases, quick=1500, thorough=10000, shards=4),
+    Sub("fieldobj", check_field, gen=field_cases, quick=800, thorough=6000, shards=2),
 ]
 
 LEVEL_TEXT = ("Hypothesis-generated FeArray expressions (arithmetic, ufuncs, comparisons, @, dot, ddot, TensorProd, .T, "
